@@ -70,6 +70,17 @@ CHECKS["C06"] = (
     "DESIGN.md section 3 / C06",
 )
 
+CHECKS["C03"] = (
+    "model-based stateful search: generated operation programs over a handle pool vs an id->weakref registry model with invariants after every step",
+    "Seeded Hypothesis search over operation programs (construct, twin, duplicate, dataclasses.replace, "
+    "ASTNode.replace ok/failing, detach, detach_self, round trips, drop + gc) with ID_DIGEST_SIZE in {1,2,8}; a "
+    "model of what should be registered is updated from the statement and compared after every step with every "
+    "lookup variant, with the liveness (weakref) of every node ever created, id uniqueness, id determinism and, "
+    "for failing replaces, the whole lookup table. Histories are data (op lists), shrunk and replayed as such.",
+    "Trusts Hypothesis, CPython refcounting/gc determinism, the registry model of pbt/props/c03.py.",
+    "DESIGN.md section 3 / C03",
+)
+
 NOT_YET = "check not built yet in this snapshot (see DESIGN.md section 9 build order); nothing is claimed"
 
 
